@@ -78,6 +78,14 @@ def simulated(rnd, i):
                 if err is None and len(b['pt'].time) != n_inst:
                     err = 'length'
         if err is None:
+            if i % 2 == 0:
+                # the user goes on working with the elements after the simulation (re-zeroes the output, nudges a speed) WITHOUT
+                # simulating: the tables are tables of the recorded history, whatever the live attributes are by now
+                o_last = b['objs'][-1]
+                o_last.angular_position = b['q']('AngularPosition', Fraction(5, 4))
+                o_mid = b['objs'][1]
+                o_mid.angular_speed = type(o_mid.angular_speed)(o_mid.angular_speed.value * 1.02 + 0.5, o_mid.angular_speed.unit)
+                b['objs'][0].torque = type(b['objs'][0].torque)(b['objs'][0].torque.value * 0.9 + 0.01, b['objs'][0].torque.unit)
             return b
     raise Machinery('no simulated powertrain')
 
